@@ -1,4 +1,516 @@
+// eng_sched.rs — schedule fan-out engine (C03, C04, C05, C06): one ruler invocation re-executed
+// from the same disk snapshot under many seeded schedules.
+
 use super::*;
-pub fn run_one(_cfg : &Config, _seed : u64, _k : u64, _stats : &mut Stats) -> Vec<Found> { vec![] }
-pub fn replay_hist(_prop : &str, _case : &Case) -> Vec<(String, String)> { vec![] }
-pub fn replay_pair(_case : &Case, _alt : &SchedSpec) -> Vec<(String, String)> { vec![] }
+use super::super::gen::{make_invalid};
+use super::super::hist::{oracle_c01, oracle_c03, oracle_c04, oracle_c05};
+use super::super::model::Outcome;
+use super::super::rt::Event;
+
+fn k_schedules(prop : &str, thorough : bool) -> usize
+{
+    match (prop, thorough)
+    {
+        ("C03", false) | ("C04", false) => 16,
+        ("C03", true) | ("C04", true) => 48,
+        (_, false) => 24,
+        (_, true) => 64,
+    }
+}
+
+/* strategies that start dependents before producers and delay single threads are over-weighted */
+fn sched_for(j : usize, rng : &mut Rng) -> SchedSpec
+{
+    let seed = rng.next();
+    let strategy = match j
+    {
+        0 => Strategy::Serial,
+        1 => Strategy::Reverse,
+        _ => match rng.below(10)
+        {
+            0 | 1 | 2 => Strategy::Starve(10 + rng.below(50) as u8),
+            3 | 4 | 5 => Strategy::Pct(1 + rng.below(3) as u8),
+            6 | 7 => Strategy::Uniform,
+            8 => Strategy::Sticky(40 + rng.below(55) as u8),
+            _ => Strategy::Reverse,
+        },
+    };
+    SchedSpec{ strategy, seed }
+}
+
+fn gen_cfg(prop : &str, thorough : bool, rng : &mut Rng) -> GenCfg
+{
+    let mut g = GenCfg::base(thorough);
+    g.max_rules = rng.range(2, if thorough { 12 } else { 8 });
+    g.max_ops = 4;
+    g.min_ops = 0;
+    g.end_with_build = false;
+    g.goals = rng.chance(1, 2);
+    g.exec = rng.chance(1, 3);
+    g.rule_edits = rng.chance(1, 3);
+    g.failing = rng.chance(1, 4);
+    g.missing_leaves = rng.chance(1, 4);
+    g.cleans = *rng.pick(&[0u64, 10, 25]);
+    match prop
+    {
+        "C04" => { g.failing = true; g.missing_leaves = rng.chance(1, 2); },
+        "C05" => { g.failing = rng.chance(1, 2); g.missing_leaves = rng.chance(1, 2); },
+        "C06" => { g.twins = true; g.shared_pool = true; g.empty_salts = true; g.cleans = 35; g.failing = rng.chance(1, 6); g.missing_leaves = false; },
+        _ => {},
+    }
+    g
+}
+
+/* probe: a cancelled dependent (no file-system activity at all, >= 2 receives) kept listening
+   while a later sender had not sent yet — the situation named in wait_for_sources_ticket */
+fn probe_late_sender(events : &[Event]) -> bool
+{
+    let mut recvs : BTreeMap<u16, Vec<(u32, u32)>> = BTreeMap::new();   // tid -> (seq, chan)
+    let mut has_fs : BTreeSet<u16> = BTreeSet::new();
+    let mut sends : BTreeMap<u32, u32> = BTreeMap::new();               // chan -> seq of send
+    for e in events
+    {
+        match &e.kind
+        {
+            Ev::Recv{ chan, ok : true } => recvs.entry(e.tid).or_insert(vec![]).push((e.seq, *chan)),
+            Ev::Send{ chan, ok : true } => { sends.insert(*chan, e.seq); },
+            Ev::Fs{..} | Ev::CmdStart{..} => { has_fs.insert(e.tid); },
+            _ => {},
+        }
+    }
+    for (tid, rs) in recvs.iter()
+    {
+        if *tid == 0 || has_fs.contains(tid) || rs.len() < 2 { continue; }
+        let first = rs[0].0;
+        if rs[1..].iter().any(|(_, chan)| sends.get(chan).map(|s| *s > first).unwrap_or(false))
+        {
+            return true;
+        }
+    }
+    false
+}
+
+pub fn check_inv(prop : &str, inv : &Inv, runner : &Runner, stats : Option<&mut Stats>) -> Vec<Violation>
+{
+    match prop
+    {
+        "C03" =>
+        {
+            let (vs, checked) = oracle_c03(inv);
+            if let Some(s) = stats
+            {
+                s.add("c03.command_starts_with_produced_source", checked as u64);
+                if checked > 0
+                {
+                    let mut h = H64::new();
+                    h.u64(shape_hash(&inv.rules)).u64(hist::conflict_hash(&inv.res.events));
+                    s.distinct.insert(h.get());
+                }
+            }
+            vs
+        },
+        "C04" =>
+        {
+            let mut vs = oracle_c04(inv, &runner.failed_last);
+            // a build the reference model expects to succeed must also be correct (repaired builds)
+            for v in oracle_c01(inv)
+            {
+                vs.push(Violation{ prop : "C04", sig : v.sig.replace("C01:", "C04:after-repair:"), detail : v.detail });
+            }
+            if let (Some(s), Ok(m)) = (stats, &inv.model)
+            {
+                let cancelled = m.outcomes.values().filter(|o| **o == Outcome::Cancelled).count();
+                let failing = m.outcomes.values().filter(|o| match o { Outcome::Fails(_) => true, _ => false }).count() + m.missing_leaves.len();
+                let independent = m.outcomes.values().filter(|o| match o { Outcome::Built(_) => true, _ => false }).count();
+                if inv.is_build && failing > 0
+                {
+                    s.inc("fault.command_failure_or_missing_leaf");
+                    s.add("c04.failing_rules_or_leaves", failing as u64);
+                    s.add("c04.cancelled_rules", cancelled as u64);
+                    if cancelled > 0 && independent > 0
+                    {
+                        let mut h = H64::new();
+                        h.u64(shape_hash(&inv.rules)).u64(hist::conflict_hash(&inv.res.events));
+                        for (i, o) in m.outcomes.iter() { h.u64(*i as u64).u64(match o { Outcome::Built(_) => 0, Outcome::Cancelled => 1, _ => 2 }); }
+                        s.distinct.insert(h.get());
+                    }
+                }
+            }
+            vs
+        },
+        "C05" =>
+        {
+            let vs = oracle_c05(inv);
+            if let Some(s) = stats
+            {
+                if inv.res.threads >= 3
+                {
+                    let mut h = H64::new();
+                    h.u64(shape_hash(&inv.rules)).u64(inv.is_build as u64).u64(hist::conflict_hash(&inv.res.events));
+                    s.distinct.insert(h.get());
+                }
+                if probe_late_sender(&inv.res.events)
+                {
+                    s.inc("probe.cancelled_dependent_waited_for_late_sender");
+                }
+                if inv.model.is_err() { s.inc("c05.invalid_graph_invocations"); }
+            }
+            vs
+        },
+        _ => vec![],
+    }
+}
+
+/* plain history run with the property's oracle on every invocation: replay and minimisation */
+pub fn run_case(prop : &str, case : &Case, mut stats : Option<&mut Stats>) -> Vec<Violation>
+{
+    let mut runner = Runner::new(case);
+    let mut out = vec![];
+    while !runner.done()
+    {
+        if let Some(inv) = runner.step()
+        {
+            out.extend(check_inv(prop, &inv, &runner, stats.as_deref_mut()));
+            runner.absorb(&inv);
+        }
+    }
+    out
+}
+
+pub fn replay_hist(prop : &str, case : &Case) -> Vec<(String, String)>
+{
+    run_case(prop, case, None).into_iter().filter(|v| v.prop == prop).map(|v| (v.sig, v.detail)).collect()
+}
+
+/* ---- C06: outcome of one invocation */
+
+#[derive(Clone, PartialEq)]
+struct Outcome6
+{
+    verdict : String,
+    workspace : Vec<(String, Vec<u8>, bool)>,
+}
+
+fn outcome6(inv : &Inv) -> Outcome6
+{
+    Outcome6
+    {
+        verdict : inv.res.verdict.canonical(),
+        workspace : inv.after.workspace(super::super::scen::RULER_DIR).into_iter().map(|(p, (c, x))| (p, (*c).clone(), x)).collect(),
+    }
+}
+
+fn diff6(a : &Outcome6, b : &Outcome6) -> Option<(String, String)>
+{
+    if a.verdict != b.verdict
+    {
+        return Some(("C06:verdict-differs".to_string(), format!("reference schedule: {}; other schedule: {}", a.verdict, b.verdict)));
+    }
+    let strip = |w : &Vec<(String, Vec<u8>, bool)>| -> Vec<(String, Vec<u8>)> { w.iter().map(|(p, c, _)| (p.clone(), c.clone())).collect() };
+    if strip(&a.workspace) != strip(&b.workspace)
+    {
+        let ma : BTreeMap<&String, (&Vec<u8>, bool)> = a.workspace.iter().map(|(p, c, x)| (p, (c, *x))).collect();
+        let mb : BTreeMap<&String, (&Vec<u8>, bool)> = b.workspace.iter().map(|(p, c, x)| (p, (c, *x))).collect();
+        for (p, (c, x)) in ma.iter()
+        {
+            match mb.get(p)
+            {
+                None => return Some(("C06:file-set-differs".to_string(), format!("{} exists under the reference schedule only", p))),
+                Some((c2, x2)) =>
+                {
+                    if c != c2 { return Some(("C06:content-differs".to_string(), format!("{}: {} under the reference schedule, {} under the other", p, super::super::util::show_bytes(c), super::super::util::show_bytes(c2)))); }
+                    // the statement speaks of content; a permission that depends on the schedule is
+                    // counted by the caller as a probe (same root cause as the C10 known finding)
+                    let _ = (x, x2);
+                },
+            }
+        }
+        for p in mb.keys()
+        {
+            if !ma.contains_key(p) { return Some(("C06:file-set-differs".to_string(), format!("{} exists under the other schedule only", p))); }
+        }
+    }
+    None
+}
+
+/* run the history up to (not including) the last op; then that op under `first` and under `second` */
+fn pair_run(case : &Case, alt : &SchedSpec) -> Option<(String, String)>
+{
+    if case.ops.len() == 0 { return None; }
+    let mut runner = Runner::new(case);
+    let last = case.ops.len() - 1;
+    while runner.next_op < last
+    {
+        if let Some(inv) = runner.step() { runner.absorb(&inv); }
+    }
+    let (is_build, goal, sched) = match &case.ops[last]
+    {
+        Op::Build{ goal, sched } => (true, goal.clone(), sched.clone()),
+        Op::Clean{ goal, sched } => (false, goal.clone(), sched.clone()),
+        _ => return None,
+    };
+    let snap = runner.world.snapshot();
+    let a = runner.invocation(last, is_build, goal.clone(), sched);
+    runner.world.restore(&snap);
+    let b = runner.invocation(last, is_build, goal, alt.clone());
+    if !a.res.verdict.returned() || !b.res.verdict.returned() { return None; }   // C05's business
+    diff6(&outcome6(&a), &outcome6(&b))
+}
+
+pub fn replay_pair(case : &Case, alt : &SchedSpec) -> Vec<(String, String)>
+{
+    pair_run(case, alt).into_iter().collect()
+}
+
+fn minimize_pair(case : &Case, alt : &SchedSpec, sig : &str) -> (Case, SchedSpec)
+{
+    // shrink the history with the alternative schedule kept as a policy first, then make it explicit
+    let s = sig.to_string();
+    let a = alt.clone();
+    let test = move |c : &Case| pair_run(c, &a).map(|(x, _)| x == s).unwrap_or(false);
+    let small = minimize(case, &test);
+    // then shrink the alternative schedule's choice list towards the serial default
+    let mut list = match &alt.strategy { Strategy::Record(l) => l.clone(), _ => return (small, alt.clone()) };
+    let mut chunk = (list.len() + 1) / 2;
+    let mut budget = 300;
+    while chunk >= 1 && list.len() > 0 && budget > 0
+    {
+        let mut start = 0;
+        let mut progress = false;
+        while start < list.len() && budget > 0
+        {
+            let end = std::cmp::min(start + chunk, list.len());
+            let mut shorter = list.clone();
+            shorter.drain(start..end);
+            budget -= 1;
+            if pair_run(&small, &SchedSpec::record(shorter.clone())).map(|(x, _)| x == sig).unwrap_or(false)
+            {
+                list = shorter;
+                progress = true;
+            }
+            else
+            {
+                start = end;
+            }
+        }
+        if chunk == 1 { if !progress { break; } } else { chunk = (chunk + 1) / 2; }
+    }
+    (small, SchedSpec::record(list))
+}
+
+pub fn run_one(cfg : &Config, seed : u64, k : u64, stats : &mut Stats) -> Vec<Found>
+{
+    let prop = cfg.prop.as_str();
+    let mut rng = Rng::derive(seed, 2);
+    let gcfg = gen_cfg(prop, cfg.thorough, &mut rng);
+    let mut gen = Gen::new(seed, gcfg);
+    let mut case = gen.case();
+
+    // C05: a share of graphs is deliberately invalid
+    let mut invalid = "";
+    if prop == "C05" && rng.chance(1, 8)
+    {
+        invalid = make_invalid(&mut rng, &mut case.rules);
+    }
+
+    // the victim invocation
+    let victim_is_clean = match prop { "C05" => rng.chance(1, 4), _ => false };
+    let goal = if rng.chance(1, 4) { let ts : Vec<String> = gen.current_rules().iter().flat_map(|r| r.targets.clone()).collect(); if ts.len() > 0 { Some(rng.pick(&ts).clone()) } else { None } } else { None };
+    let victim = case.ops.len();
+    case.ops.push(if victim_is_clean { Op::Clean{ goal : goal, sched : SchedSpec::serial() } } else { Op::Build{ goal : goal, sched : SchedSpec::serial() } });
+
+    // C04: follow-up history — build again unrepaired, repair, build again
+    if prop == "C04"
+    {
+        case.ops.push(Op::Build{ goal : None, sched : SchedSpec::random(&mut rng) });
+        // repair: make every leaf exist with harmless content and drop fail lines / add missing emits
+        let files = gen.current_files();
+        for leaf in gen.leaf_names()
+        {
+            let c = files.get(&leaf).cloned().unwrap_or(b"FAIL".to_vec());
+            if c.windows(4).any(|w| w == b"FAIL") || !files.contains_key(&leaf)
+            {
+                case.ops.push(Op::Write{ path : leaf.clone(), content : format!("{}#r", leaf).into_bytes() });
+            }
+        }
+        let mut repaired = gen.current_rules();
+        for r in repaired.iter_mut()
+        {
+            r.lines.retain(|l| match l { Line::Fail => false, _ => true });
+            for t in r.targets.clone()
+            {
+                if !r.lines.iter().any(|l| match l { Line::Emit{ target, .. } => *target == t, _ => false })
+                {
+                    let input = r.sources[0].clone();
+                    r.lines.push(Line::Emit{ target : t, salt : "r".to_string(), inputs : vec![input], exec : false });
+                }
+            }
+        }
+        case.ops.push(Op::SetRules{ rules : repaired });
+        case.ops.push(Op::Build{ goal : None, sched : SchedSpec::random(&mut rng) });
+    }
+
+    if k < 3 * cfg.workers { stats.sample(case.to_j().set("victim_op", J::Int(victim as i64)).set("invalid", J::s(invalid))); }
+
+    let mut found : Vec<Found> = vec![];
+    let mut runner = Runner::new(&case);
+    let mut raw : Vec<(Violation, Case)> = vec![];
+
+    // pre-history
+    while runner.next_op < victim
+    {
+        let op = runner.case.ops[runner.next_op].clone();
+        match runner.step()
+        {
+            Some(inv) =>
+            {
+                let name = match &op { Op::Build{ sched, .. } | Op::Clean{ sched, .. } => sched.name(), _ => "" };
+                stats.note_invocation(&inv, name);
+                for v in check_inv(prop, &inv, &runner, Some(stats))
+                {
+                    let mut c = case.clone();
+                    c.ops.truncate(inv.op_index + 1);
+                    raw.push((v, c));
+                }
+                runner.absorb(&inv);
+            },
+            None => stats.inc(&format!("userop.{}", op.kind())),
+        }
+    }
+
+    // fan-out
+    let snap = runner.world.snapshot();
+    let (is_build, vgoal) = match &case.ops[victim] { Op::Build{ goal, .. } => (true, goal.clone()), Op::Clean{ goal, .. } => (false, goal.clone()), _ => (true, None) };
+    let kk = k_schedules(prop, cfg.thorough);
+    let mut reference : Option<(Outcome6, SchedSpec)> = None;
+    let mut last_inv : Option<Inv> = None;
+    let mut c06_equal_contents = false;
+    for j in 0..kk
+    {
+        runner.world.restore(&snap);
+        let sched = sched_for(j, &mut rng);
+        let inv = runner.invocation(victim, is_build, vgoal.clone(), sched.clone());
+        stats.note_invocation(&inv, sched.name());
+        if invalid != "" { stats.inc(&format!("c05.invalid.{}", invalid)); }
+
+        let mut replay_case = case.clone();
+        replay_case.ops.truncate(victim + 1);
+        set_sched(&mut replay_case.ops[victim], SchedSpec::record(inv.res.record.clone()));
+
+        if prop == "C06"
+        {
+            if j == 0
+            {
+                if let Ok(m) = &inv.model
+                {
+                    let mut contents : Vec<&Vec<u8>> = m.outcomes.values().flat_map(|o| match o { Outcome::Built(ts) => ts.iter().map(|(_, b, _)| b).collect::<Vec<_>>(), _ => vec![] }).collect();
+                    let n = contents.len();
+                    contents.sort();
+                    contents.dedup();
+                    c06_equal_contents = contents.len() < n;
+                }
+            }
+            if inv.res.verdict.returned()
+            {
+                let o = outcome6(&inv);
+                match &reference
+                {
+                    None => reference = Some((o, SchedSpec::record(inv.res.record.clone()))),
+                    Some((r, rsched)) =>
+                    {
+                        if r.workspace != o.workspace && diff6(r, &o).is_none()
+                        {
+                            stats.inc("probe.exec_bit_depends_on_schedule");
+                        }
+                        if let Some((sig, detail)) = diff6(r, &o)
+                        {
+                            let mut c = replay_case.clone();
+                            set_sched(&mut c.ops[victim], rsched.clone());
+                            let alt = SchedSpec::record(inv.res.record.clone());
+                            if !found.iter().any(|f : &Found| f.sig == sig)
+                            {
+                                let (small, alt2) = minimize_pair(&c, &alt, &sig);
+                                let d = pair_run(&small, &alt2).map(|(_, d)| d).unwrap_or(detail);
+                                found.push(Found
+                                {
+                                    prop : "C06".to_string(),
+                                    sig : sig,
+                                    detail : d,
+                                    explain : small.to_j().set("alternative_schedule_of_last_op", super::super::scen::sched_to_j(&alt2)),
+                                    replay : Replay::Pair{ case : small, alt : alt2 },
+                                });
+                            }
+                        }
+                    },
+                }
+            }
+            if c06_equal_contents
+            {
+                let mut h = H64::new();
+                h.u64(shape_hash(&inv.rules)).u64(ops_hash(&case.ops[..victim])).u64(hist::conflict_hash(&inv.res.events));
+                stats.distinct.insert(h.get());
+            }
+        }
+        else
+        {
+            for v in check_inv(prop, &inv, &runner, Some(stats))
+            {
+                raw.push((v, replay_case.clone()));
+            }
+        }
+        last_inv = Some(inv);
+    }
+    if prop == "C06" && c06_equal_contents { stats.inc("c06.prestates_with_equal_contents"); }
+
+    // follow-up history continues from the state the last schedule left
+    if let Some(inv) = last_inv
+    {
+        let last_record = inv.res.record.clone();
+        runner.next_op = victim + 1;
+        runner.absorb(&inv);
+        while !runner.done()
+        {
+            let op = runner.case.ops[runner.next_op].clone();
+            match runner.step()
+            {
+                Some(inv2) =>
+                {
+                    let name = match &op { Op::Build{ sched, .. } | Op::Clean{ sched, .. } => sched.name(), _ => "" };
+                    stats.note_invocation(&inv2, name);
+                    for v in check_inv(prop, &inv2, &runner, Some(stats))
+                    {
+                        let mut c = case.clone();
+                        c.ops.truncate(inv2.op_index + 1);
+                        set_sched(&mut c.ops[victim], SchedSpec::record(last_record.clone()));
+                        raw.push((v, c));
+                    }
+                    runner.absorb(&inv2);
+                },
+                None => stats.inc(&format!("userop.{}", op.kind())),
+            }
+        }
+    }
+    stats.inc("runs");
+
+    // minimise and package (one per signature)
+    let mut seen = BTreeSet::new();
+    for (v, c) in raw
+    {
+        if v.prop != prop || !seen.insert(v.sig.clone()) { continue; }
+        let explicit = explicit_schedules(&c);
+        let base = if run_case(prop, &explicit, None).iter().any(|x| x.sig == v.sig) { explicit } else { c.clone() };
+        if !run_case(prop, &base, None).iter().any(|x| x.sig == v.sig)
+        {
+            // cannot be reproduced as a plain history: report unminimised; the driver will flag it
+            found.push(Found{ prop : prop.to_string(), sig : v.sig.clone(), detail : format!("NOT REPRODUCED AS HISTORY: {}", v.detail), explain : c.to_j(), replay : Replay::Hist{ prop : prop.to_string(), case : c } });
+            continue;
+        }
+        let sig = v.sig.clone();
+        let p = prop.to_string();
+        let test = move |cand : &Case| run_case(&p, cand, None).iter().any(|x| x.sig == sig);
+        let small = minimize(&base, &test);
+        let detail = run_case(prop, &small, None).into_iter().find(|x| x.sig == v.sig).map(|x| x.detail).unwrap_or(v.detail.clone());
+        found.push(Found{ prop : prop.to_string(), sig : v.sig.clone(), detail : detail, explain : small.to_j(), replay : Replay::Hist{ prop : prop.to_string(), case : small } });
+    }
+    found
+}
